@@ -6,7 +6,7 @@ ID = "C06"
 LEVEL = "exploration"
 RULE = ("cases: generated grammar (emphasis: empty-deriving symbols under repetitions, nested repetitions, left/right/mutual recursion, unit cycles, "
         "empty-matching regexes) x all inputs over the grammar's alphabet up to a length bound x request kind (first tree, forest <= 200 trees, prefix "
-        "mode, other start symbol, fuzz steps that parse internally). Logical clock: states admitted into Earley columns (Column.add), reset at every "
+        "mode (first 3 trees: its forest is in general infinite), other start symbol, fuzz steps that parse internally). Logical clock: states admitted into Earley columns (Column.add), reset at every "
         "output. Violated: clock passes the budget AND a pumping witness exists (one state core admitted > 64 times into one column with growing child "
         "lists). Budget passed without witness = inconclusive. Non-trivial: grammar has a repetition or recursion; distinct by (grammar, input, request).")
 TIMEOUTS = {"quick": (90, 420), "thorough": (240, 2400)}
@@ -189,7 +189,10 @@ def run_case(c):
                     for t in f.grammar.parse_forest(inp, st, mode=ParsingMode.INCOMPLETE):
                         steps.tick_output()
                         n += 1
-                        if n >= 200:
+                        # The forest of a prefix-mode request is in general infinite (every way of leaving repetitions
+                        # unfinished), and each further tree legitimately costs more than the one before: a fixed
+                        # per-output budget is only meaningful for the first outputs ("the request returns").
+                        if n >= 3:
                             break
             except steps.StepBudgetExceeded:
                 w = steps.witness()
